@@ -334,6 +334,60 @@ def gen_rivernet(r, ndates=3):
     return case
 
 
+def gen_returnflow(r, ndates=3):
+    """a chain of river reaches with a supply chain that abstracts from one reach and returns its effluent to another
+    (upstream of the abstraction: the model graph has a loop through the rivers; the river / junction / outlet network
+    itself is an acyclic chain)"""
+    polset = r.choice(["simple", "one", "four"])
+    NG.set_pollutants(polset)
+    g = NG.Gen(r, ndates, polset, {})
+    out = g.waste()
+    rivers = [g.river() for _ in range(r.choice([2, 2, 3, 4]))]
+    g.arc(g.catchment("steady"), rivers[0])
+    for a, b in zip(rivers, rivers[1:]):
+        if r.random() < 0.25:
+            j = g.junction()
+            g.arc(a, j)
+            g.arc(j, b)
+        else:
+            g.arc(a, b)
+    g.arc(rivers[-1], out)
+    k = r.randrange(len(rivers))
+    j = r.randrange(len(rivers))
+    fw = g.fwtw()
+    if r.random() < 0.5:
+        resv = g.reservoir()
+        g.arc(rivers[k], resv)
+        g.arc(resv, fw)
+    else:
+        g.arc(rivers[k], fw)
+    dist = g.distribution()
+    g.arc(fw, dist)
+    dem = g.demand(residential=r.random() < 0.5)
+    g.arc(dist, dem)
+    ww = g.wwtw()
+    if r.random() < 0.5:
+        sw = g.sewer()
+        g.arc(dem, sw)
+        g.arc(fw, sw)
+        g.arc(sw, ww)
+    else:
+        g.arc(dem, ww)
+        g.arc(fw, ww)
+    g.arc(ww, rivers[j])
+    r.shuffle(g.arcs)
+    if r.random() < 0.5:
+        r.shuffle(g.nodes)
+    NG.set_pollutants("default")
+    cfg = {"polset": polset, "dates": g.dates, "nodes": g.nodes, "arcs": g.arcs, "size": "returnflow"}
+    case = {"cfg": cfg, "kind": "returnflow", "orchestration": None, "builder": r.choice(["dicts", "dicts", "instantiated"]),
+            "shape": f"{len(rivers)} reaches, abstraction from reach {k}, effluent into reach {j}"}
+    if case["builder"] == "instantiated":
+        case["inst_nodes"] = [n["name"] for n in g.nodes]
+        case["inst_arcs"] = [a["name"] for a in g.arcs]
+    return case
+
+
 def divergent_cases():
     """(1) alpha -> beta -> outlet, alpha -> outlet (fails for some hash seeds);
     (2) alpha -> beta -> gamma -> outlet, alpha -> outlet (beta is further from the outlet than alpha: fails always)"""
@@ -412,6 +466,14 @@ def run(rep, thorough):
                 if d[("flow", d0)] == 0:
                     d[("flow", d0)] = type(d[("flow", d0)])(3)
                 d[("flow", d1)] = type(d[("flow", d1)])(0)
+        rivs = [n["name"] for n in cfg["nodes"] if n["type_"] == "River"]
+        eff = [a for a in cfg["arcs"] if types[a["in_port"]] == "WWTW" and types[a["out_port"]] == "River"]
+        if eff and len(rivs) >= 2 and random.Random(f"returnflow{i}").random() < 0.7:
+            # a return flow: the works discharge into another reach than the generator chose - when that reach lies upstream
+            # of the abstraction the model graph has a loop through the rivers (the river / junction / outlet network itself
+            # stays acyclic)
+            eff[0]["out_port"] = random.Random(f"returnflow-to{i}").choice([x for x in rivs if x != eff[0]["out_port"]])
+            stats["return_flows"] = stats.get("return_flows", 0) + 1
         stats["models"] += 1
         for j in range(norch):
             orch = None if j == 0 else gen_orchestration(r)
@@ -445,6 +507,11 @@ def run(rep, thorough):
         if i == 0:
             rep.samples.append(f"C16 river network ({case['shape']}, builder {case['builder']}): arcs "
                                f"{[(a['in_port'], a['out_port']) for a in case['cfg']['arcs']]} discharge order {info.get('river_order')}")
+    for i in range(nnet // 2):
+        case = gen_returnflow(r, ndates=r.choice([2, 3]))
+        info = evaluate(rep, case, stats, seen)
+        stats["return_flow_networks"] = stats.get("return_flow_networks", 0) + 1
+        rep.add_eval(("C16", "returnflow", case["shape"], case["builder"], tuple(info.get("river_order", []))), nontrivial=bool(info.get("flowing")))
     for case in divergent_cases():
         evaluate(rep, case, stats, seen)
         stats["divergent_cases"] += 1
